@@ -34,6 +34,8 @@ func init() {
 			{ID: "R15l", Floor: 2, Doc: "an error of the underlying link system reaches the traversal unchanged from the loaders (traversal.SkipMe is recognised by type assertion: wrapped, it aborts the walk in one pass and not in the other)", Run: ruleR15l},
 			{ID: "R15m", Floor: 3, Doc: "every dag the caller listed is in the header and is walked: NewSelectiveCar keeps its dags parameter itself, and traverseHeader / traverseBlocks range over that field itself (no filtered or de-duplicated list: two dags may share a root and differ in selector, and the header lists roots as given)", Run: ruleR15m},
 			{ID: "R15n", Floor: 1, Doc: "the block callback of SelectiveCar.Write writes every block it is handed: no nil return without LdWrite (the traversal has counted the block and advanced the offset already)", Run: ruleR15n},
+			{ID: "R15o", Floor: 1, Doc: "every traversal of the root-module selective writer has its own visited set: the cid.Set the traverser gets is allocated by cid.NewSet() in SelectiveCar.traverse (Prepare, Write and Dump each walk the DAG)", Run: ruleR15o},
+			{ID: "R15p", Floor: 1, Doc: "the teeing opener answers a CID it has already written with the underlying opener's answer, not with an error or traversal.SkipMe: the walk still reads the block to follow its links", Run: ruleR15p},
 			{ID: "R15c", Floor: 1, Doc: "size-mismatch guard", Run: ruleR15c},
 			{ID: "R15i", Floor: 8, Doc: "the announced section size and the written framing come from the same length formula (= R01b)", Run: ruleR01b},
 		},
